@@ -23,7 +23,8 @@ META = {
     "'if <updated balance> is not within 1e-10 of zero and < 0 and not allow_negative_balances: raise RP2ValueError(naming exchange and holder)'; no credit-side "
     "or final-only check exists; the replay runs in timestamp order with in-transactions first in a stable sort, so a same-instant credit precedes the debit; "
     "-n is a store_true option (default False) forwarded unchanged to Configuration.allow_negative_balances, the only escape atom; the balance set is built "
-    "unconditionally for every asset inside ComputedData before any generator runs and the error reaches the top-level handler that exits non-zero.",
+    "unconditionally for every asset inside ComputedData before any generator runs and the error reaches the top-level handler that exits non-zero; "
+    "with -n the negative balance is reported: the Account Balances table of the full report writes one row per balance of the set whatever its sign.",
     "not_decided": "Decimal.quantize semantics and stability of sorted() are trusted; run-time values.",
     "assumptions": ["Decimal.quantize rounds to the mask's exponent", "sorted() is stable"],
 }
@@ -243,6 +244,15 @@ def run(rep: Report, tier: str) -> None:
     for gcall in gens:
         after = gcall.lineno > loop.end_lineno and not any(a is loop for a in ancestors(gcall))
         rep.check(after, rf, main_mod, internal.qualname, "report generators run after the per-asset loop", "the report generators are invoked inside or before the per-asset loop: a report could be written before a later asset's overdraft is detected", loc(gcall))
+
+    # ---------------------------------------------------------------- C08.g
+    # 'with -n the run proceeds and reports the negative balance': the Account Balances table of the full report writes one row per
+    # balance of the set, whatever its sign (no row is skipped), the Final Balance column shows the balance's own final_balance
+    from . import c13
+
+    rg = rep.rule("C08.g", "with -n the negative balance is reported: the Account Balances table has one row per balance of the set, no sign filter", floor=8)
+    fr = c13.FullReport()
+    c13.check_writer(rep, fr, "__generate_account_balances", rg, rg)
 
 
 def _is_dispatch(bm, cond) -> bool:
